@@ -256,6 +256,10 @@ func runC15(c *sim.Ctx, t *testing.T) {
 			if c.Bool("withlog") {
 				st["bs"] = map[string]interface{}{"log": []interface{}{map[string]interface{}{"id": "seed"}}}
 			}
+			if c.Chance(1, 3, "permanent") {
+				// a permanent binding: actions cannot remove it, an operator who replaces the state can
+				st["bs"].(map[string]interface{})["owner!"] = "ops"
+			}
 			m := map[string]interface{}{"spec": map[string]interface{}{"inline": vfSpecJSON(version)}}
 			if c.Chance(3, 4, "withstate") {
 				m["state"] = st
